@@ -52,6 +52,14 @@ def _arrays(maxlen):
 
 
 def _call(sau, strategy, fill, x, q, via_dispatch):
+    if fill and (len(x) + len(q)) % 2 == 0:      # documented defaults: fill_not_valid=True, strategy='closest'
+        if via_dispatch:
+            return sau.find_closest_element_indices_to_values(x, q) if strategy == "closest" else \
+                sau.find_closest_element_indices_to_values(x, q, strategy)
+        if strategy == "lower":
+            return sau.find_closest_lower_equal_element_indices_to_values(x, q)
+        if strategy == "higher":
+            return sau.find_closest_higher_equal_element_indices_to_values(x, q)
     if via_dispatch:
         return sau.find_closest_element_indices_to_values(x, q, strategy=strategy, fill_not_valid=fill)
     if strategy == "lower":
